@@ -1,4 +1,4 @@
-(* tools/copy_file.py Symlink.transform_input: the link target handed to `ln -sf` is the input's path RELATIVE TO THE
+(* tools/copy_file.py Symlink.transform_input (model: PathAlg.symlink_target): the link target handed to `ln -sf` is the input's path RELATIVE TO THE
    DIRECTORY OF THE LINK (input.path.relpath(output.path.parent())), because a relative link target is resolved from
    there and not from the build directory.  For two well-formed paths under one non-absolute root (the build directory:
    a generated file linked somewhere else in the build tree) the target exists, and resolving it from the link's
@@ -12,19 +12,13 @@ From BFG Require Import Base.Chars Path.PathAlg Path.PathAlgProofs Path.PathAlgM
                         Path.PathAlgWf Path.PathAlgOps.
 Import ListNotations.
 
-Definition symlink_target (fl : flavour) (input output : path) : option str :=
-  match parent output with
-  | Some d => relpath fl input d [] false
-  | None => None
-  end.
-
-Theorem symlink_target_resolves fl input output :
+Theorem symlink_target_resolves input output :
   wfp input -> wfp output -> p_root input = p_root output -> root_eqb (p_root input) Absolute = false ->
   p_destdir input = p_destdir output ->
   is_nil (suffix_str output) = false -> nodrive [last (p_comps output) []] ->
   (common_len (removelast (p_comps output)) (p_comps input) = length (removelast (p_comps output)) ->
    nodrive (skipn (common_len (removelast (p_comps output)) (p_comps input)) (p_comps input))) ->
-  exists d s r, parent output = Some d /\ symlink_target fl input output = Some s /\
+  exists d s r, parent output = Some d /\ symlink_target Posix input output = Some s /\
                 append d s = Some r /\ path_eqb r input = true.
 Proof.
   intros Wi Wo Hr Ha Hdd Hs Hd Hg.
@@ -39,6 +33,8 @@ Proof.
   assert (Hrq' : p_root input = p_root q) by now rewrite Hrq.
   assert (Hdd' : p_destdir input = p_destdir q) by now rewrite Hdq.
   rewrite <- Hcq in Hg.
-  destruct (relpath_append_eq fl input q Wi Wq Hrq' Ha Hdd' Hg) as (s & r & Hs' & Hap & He).
-  exists q, s, r. unfold symlink_target. rewrite Hq. auto.
+  destruct (relpath_append_eq Posix input q Wi Wq Hrq' Ha Hdd' Hg) as (s & r & Hs' & Hap & He).
+  destruct (relpath_value Posix input q true Wi Wq Hrq' Ha) as [H1 H2].
+  rewrite H1 in Hs'. injection Hs' as <-.
+  exists q. eexists. exists r. unfold symlink_target. rewrite Hq. split; [reflexivity|]. split; [exact H2|]. auto.
 Qed.
